@@ -229,10 +229,9 @@ func (vm *VM) resetPath() {
 	vm.mainKeepOK = false
 	vm.nextID = 0
 	vm.timers = nil
-	vm.now = IntV{}
-	if vm.intMode {
-		vm.now = IntV{C: 0}
-	}
+	// the clock starts one nanosecond after the zero instant: an instant read from it is never the zero time
+	// (which code uses as "not set")
+	vm.now = IntV{C: 1}
 	vm.side = map[*Value]interface{}{}
 	vm.inputs = nil
 	vm.observes = nil
